@@ -119,12 +119,28 @@ def check_c13(prop, tier):
                             cfgs.append(D.Config("TwoLevel",
                                                  (period, bs, st, traj), n, k))
 
-    def worker(idxs):
-        return [(i,) + c13_eval(cfgs[i], opt) for i in idxs]
+    # siblings (same n and period; units, storage, trajectory, passes vary) are
+    # evaluated by one worker back to back, in both orders
+    groups = {}
+    for i, c in enumerate(cfgs):
+        groups.setdefault((c.N, c.params[0]), []).append(i)
+    glist = list(groups.values())
+
+    def worker(gidx):
+        out = []
+        for g in gidx:
+            for i in glist[g] + glist[g][::-1]:
+                out.append((i,) + c13_eval(cfgs[i], opt))
+        return out
     nontriv = 0
-    for part in common.pmap(worker, len(cfgs)):
+    for part in common.pmap(worker, len(glist)):
+        seen_ok = set()
         for i, code, msg, nact, nt in part:
             cfg = cfgs[i]
+            if code is None:
+                if i in seen_ok:
+                    continue
+                seen_ok.add(i)
             res.add(evaluations=1, transitions=nact)
             if code is None:
                 res.add(traces_validated_against_impl=1)
